@@ -289,19 +289,31 @@ def run(ctx):
     # the property as observed at the command line: how the user's options reach the stages (CliFlow.tla, drivers/cliflow.py)
     from drivers import cliflow
     cliflow.family(ctx, "C03")
+    # the stand-alone rollup tool over HISTORIES in one directory (RollupTool.tla generates them, RollupToolTrace.tla judges the
+    # recorded runs): the rule on previously written result files, for every base level and with the tool's own earlier files around
+    ctx.phase("rollup_histories")
+    from drivers import rolltool
+    rolltool.run_family(ctx, "C03", 36 if ctx.quick else 1200, 12 if ctx.quick else 400)
     return ctx.finish(
         rule="tables = every canonical table (spectra/entities named by first appearance, dense ranks with ties) enumerated by "
              "TLC from ConfGen.tla (<=4 rows, <=3 spectra, <=2 entities per level; quick: all tables of <=3 rows + a seeded sample of "
              "the 4-row tables, thorough: all), each run through the real assign_confidence "
              "with rotating labels/flags/chunk sizes/merge chunk/format/workers; plus multi-collection runs with and without "
              "prefixes, random 60-200 row tables with heavy ties, and brew_rollup on the result files of 2-3 prefixed "
-             "collections; distinct = distinct (table, labels, flags, chunk, format)", exhaustive=not ctx.quick)
+             "collections; histories of the rollup tool in one directory (put / drop / roll over 2 collections x 2 versions x 2 file roots x 5 "
+             "base levels, from RollupTool.tla, plus seeded longer ones); distinct = distinct (table, labels, flags, chunk, format)", exhaustive=not ctx.quick)
 
 
 def replay(ctx, case):
     if isinstance(case.get("case"), dict) and case["case"].get("kind") == "cliflow":
         from drivers import cliflow
         return cliflow.replay(ctx, case, "C03")
+    if isinstance(case.get("case"), dict) and "rolltool_history" in case["case"]:
+        from drivers import rolltool
+        rolltool.replay_history(ctx, "C03", case["case"]["rolltool_history"])
+        ctx.count("replay")
+        ctx.count("replay2")
+        return ctx.finish(rule="replay of one recorded rollup history")
     c = case["case"]["case"]
     trs = run_case(c)
     for i, t in enumerate(trs):
